@@ -54,6 +54,35 @@ Definition tree_respects (t : tree) : Prop :=
   forall f d, In f (tree_fetches t) -> In d (fdeps f) -> In d (tree_ids t) ->
   before (Merge d) (Prepare (fid f)) s.
 
+(* ---- merged fetches ----
+   A node of the tree stands for the planned fetches merged into it (MultiEntityFetch.
+   MergedFetchIDs); a plain node stands for itself.  The request of a merged node carries the
+   representations of all its members, so it reads whatever any member reads: the dependencies
+   that count are the ones the PLANNER declared for the members in the plan [l], not the list the
+   post-processing wrote on the merged node. *)
+Definition planned_ids (f : fetch) : list nat :=
+  match fmerged f with
+  | [] => [fid f]
+  | ms => ms
+  end.
+Definition planned_of_tree (t : tree) : list nat := flat_map planned_ids (tree_fetches t).
+
+Definition member_respects (t : tree) (l : list fetch) : Prop :=
+  forall s, lin t s ->
+  forall M m g d, In M (tree_fetches t) -> In m (planned_ids M) ->
+                  In g l -> fid g = m -> In d (fdeps g) -> In d (ids l) ->
+  exists D, In D (tree_fetches t) /\ In d (planned_ids D) /\
+            before (Merge (fid D)) (Prepare (fid M)) s.
+
+(* every planned fetch is a member of exactly one node (with unique ids in [l]), and every node
+   runs exactly once *)
+Definition members_once (t : tree) (l : list fetch) : Prop :=
+  Permutation (planned_of_tree t) (ids l) /\
+  forall s, lin t s -> NoDup s /\ Permutation s (events_of (tree_fetches t)).
+
+(* the planner's output carries no merged fetch *)
+Definition plain (l : list fetch) : Prop := forall f, In f l -> fmerged f = [].
+
 (* hypotheses on plans *)
 Definition unique_ids (l : list fetch) : Prop := NoDup (ids l).
 Definition acyclic (l : list fetch) : Prop :=
@@ -83,13 +112,40 @@ Fixpoint sc (known before : list nat) (t : tree) : bool :=
 Definition respects_deps_b (t : tree) : bool := sc (tree_ids t) [] t.
 
 Definition fetch_eqb (a b : fetch) : bool :=
-  (fid a =? fid b) && list_nat_eqb (fdeps a) (fdeps b).
+  (fid a =? fid b) && list_nat_eqb (fdeps a) (fdeps b) && src_eqb (fsrc a) (fsrc b) &&
+  list_nat_eqb (fmerged a) (fmerged b).
 Definition exactly_once_b (t : tree) (l : list fetch) : bool :=
   negb (has_dup (tree_ids t)) &&
   (length l <=? length (tree_fetches t)) &&
   forallb (fun f => existsb (fetch_eqb f) l) (tree_fetches t).
 
 Definition unique_ids_b (l : list fetch) : bool := negb (has_dup (ids l)).
+Definition plain_b (l : list fetch) : bool :=
+  forallb (fun f => match fmerged f with [] => true | _ => false end) l.
+
+(* structural form of [member_respects]: [before] holds the PLANNED ids sequenced strictly earlier *)
+Definition mc_seq (mc1 : list nat -> tree -> bool) : list nat -> list tree -> bool :=
+  fix go (before : list nat) (ts : list tree) : bool :=
+    match ts with
+    | [] => true
+    | c :: r => mc1 before c && go (planned_of_tree c ++ before) r
+    end.
+Fixpoint mc (l : list fetch) (before : list nat) (t : tree) : bool :=
+  match t with
+  | Single M =>
+    forallb (fun m =>
+               match node_by_id l m with
+               | None => false
+               | Some g => forallb (fun d => negb (memb d (ids l)) || memb d before) (fdeps g)
+               end) (planned_ids M)
+  | Parallel ts => forallb (mc l before) ts
+  | Sequence ts => mc_seq (mc l) before ts
+  end.
+Definition respects_member_deps_b (t : tree) (l : list fetch) : bool := mc l [] t.
+Definition members_once_b (t : tree) (l : list fetch) : bool :=
+  negb (has_dup (tree_ids t)) && negb (has_dup (planned_of_tree t)) &&
+  (length l <=? length (planned_of_tree t)) &&
+  forallb (fun m => memb m (ids l)) (planned_of_tree t).
 
 (* acyclicity certificate: any list of ids such that every fetch stands after its in-list
    dependencies (position of an id that is missing from [order] = length order) *)
